@@ -532,7 +532,7 @@ pub fn run(rep: &mut Report, thorough: bool, replay: Option<Value>) {
     // ---- one collection consumed by two slices ---------------------------------------------
     let max_n_shared = if thorough { 4 } else { 3 };
     rep.bound("max_inputs_shared_P8_P9_P11", max_n_shared);
-    rep.bound("max_inputs_shared_P10", max_n_shared - 1);
+    rep.bound("max_inputs_shared_P10", max_n_shared - 2);
     section!("P8_shared_keyed_two_slices", st, {
         for n in 1..=max_n_shared {
             let case = Case { prog: "P8", n, nb: 0, pattern: "upfront" };
@@ -568,7 +568,7 @@ pub fn run(rep: &mut Report, thorough: bool, replay: Option<Value>) {
         }
     });
     section!("P10_shared_snapshot_two_slices", st, {
-        for n in 1..max_n_shared {
+        for n in 1..max_n_shared - 1 {
             let case = Case { prog: "P10", n, nb: 0, pattern: "upfront" };
             if !wanted(&case) {
                 continue;
